@@ -421,9 +421,9 @@ func Check() *core.Check {
 			"a case is non-trivial if the document parses to at least one policy or exercises an error path",
 		Assumptions: []string{"a reader never returns 0 bytes twice in a row (a reader that returns (0, nil) forever violates io.Reader's contract)", "for documents that do not parse only error-ness and the error text are compared"},
 		Families: func(tier string) []*core.Family {
-			bound := 1
+			bound := 2
 			if tier == "thorough" {
-				bound = 2
+				bound = 4
 			}
 			docs := allDocs()
 			strad := straddleDocs()
